@@ -17,7 +17,7 @@ ASSUMPTIONS = [
 CONDITIONS = (
     shards("roundtrip", "c05.py", "h_roundtrip", {"kind": [0, 1, 2, 3], "p0": list(range(14))}, timeout=300, thorough_timeout=3000,
            what="from_parts -> parts: refused (raw LF) / rejected (ValueError) / exactly the same name, one parameter, value text decoding to the value",
-           bound="parameter value <= 1 char (thorough 2, first pinned), value <= 2 chars (thorough 3), 14-char alphabet")
+           bound="parameter value <= 1 char (pinned per shard), value <= 2 chars (thorough 3), 14-char alphabet")
     + shards("inject", "c05.py", "h_inject", {"kind": [2, 3], "pq": [0, 1, 2, 3, 4]}, timeout=300, thorough_timeout=3000, tiers=("thorough",),
              what="component read back has exactly VCALENDAR > VEVENT > {UID, X-NAME[X-P]} or the X-NAME line alone is dropped",
              bound="value <= 4 chars over {\" ; : = , a backslash}; parameter value pinned per shard")
